@@ -304,6 +304,8 @@ def directed_cases():
     add("d_aref_angle_gdsxy", [L, mkstruct("top", [e_aref("leaf", [0, 0, 0, 20, -30, 0], 2, 3, strans(False, 90.0))])])
     add("d_aref_angle_gdsxy", [L, mkstruct("top", [e_aref("leaf", [0, 0, -20, 0, 0, -30], 2, 3, strans(True, 180.0))])])
     add("d_aref_1x1", [L, mkstruct("top", [e_aref("leaf", [4, 4, 4, 4, 4, 4], 1, 1)])])
+    add("d_aref_angle_1x1", [L, mkstruct("top", [e_aref("leaf", [4, 4, 4, 4, 4, 4], 1, 1, strans(False, 90.0))])])
+    add("d_aref_angle_1x1", [L, mkstruct("top", [e_aref("leaf", [4, 4, 4, 4, 4, 4], 1, 1, strans(True, 270.0))])])
     for cols, rows in ((0, 3), (2, 0), (0, 0), (-2, 3), (2, -1), (-2, -3)):
         add("m_dims", [L, mkstruct("top", [e_aref("leaf", [0, 0, 20, 0, 0, 30], cols, rows)])])
     add("d_big", [L, mkstruct("top", [e_aref("leaf", [0, 0, 200 * 5, 0, 0, 200 * 4], 200, 200)])])
@@ -485,8 +487,16 @@ def flat_counts(lib):
 def inst_count(lib):
     return max([sum((1 if e["k"] == "sref" else max(0, e["cols"]) * max(0, e["rows"])) for e in s["elems"] if e["k"] in ("sref", "aref")) for s in lib["structs"]] or [0])
 
-def features(lib):
-    """defect-relevant features of a library (classification of violations only; the verdict is the Coq checker's)"""
+FEATURE_FLAG = {"aref-zero-dims": "dims", "aref-capacity": "cap", "aref-angle": "deg", "aref-lattice": "lattice", "empty-xy": "emptyxy",
+                "sref-mag": "mag", "path-negative-width": "width", "label-on-polygon": "contains", "label-on-nonmanhattan-path": "pathdiag"}
+def features(lib, flags=None):
+    """defect-relevant features of a library (classification of violations only; the verdict is the Coq checker's);
+    a feature whose defect the tree at hand no longer has (flags) is not listed"""
+    f = all_features(lib)
+    if flags:
+        f = {x for x in f if not flags.get(FEATURE_FLAG[x], False)}
+    return f
+def all_features(lib):
     f = set()
     for s in lib["structs"]:
         texts = [e for e in s["elems"] if e["k"] == "text"]
@@ -504,7 +514,8 @@ def features(lib):
                 st = e["strans"]
                 if st and st["angle"] is not None:
                     f.add("aref-angle")
-                    if axis and st["angle"] not in (G.f2b(0.0), G.f2b(360.0), 1 << 63):
+                    pitch = (e["cols"] > 1 and xy[2] != xy[0]) or (e["rows"] > 1 and xy[5] != xy[1])
+                    if axis and pitch and st["angle"] not in (G.f2b(0.0), G.f2b(360.0), 1 << 63):
                         f.add("aref-lattice")
             if k in ("boundary", "path") and len(e["xy"]) == 0:
                 f.add("empty-xy")
@@ -521,6 +532,37 @@ def features(lib):
                 if any(t["layer"] == e["layer"] for t in texts):
                     f.add("label-on-polygon")
     return f
+
+def describe(lib):
+    """one line per struct, readable"""
+    def st(s):
+        if not s:
+            return ""
+        o = []
+        if s["r"]: o.append("reflect")
+        if s["angle"] is not None: o.append("angle=%r" % struct_f(s["angle"]))
+        if s["mag"] is not None: o.append("mag=%r" % struct_f(s["mag"]))
+        if s["am"]: o.append("absmag")
+        if s["aa"]: o.append("absangle")
+        return " " + ",".join(o)
+    out = []
+    for s in lib["structs"]:
+        es = []
+        for e in s["elems"]:
+            k = e["k"]
+            if k == "boundary": es.append("BOUNDARY %d/%d xy%s" % (e["layer"], e["datatype"], e["xy"]))
+            elif k == "box": es.append("BOX %d/%d xy%s" % (e["layer"], e["boxtype"], e["xy"]))
+            elif k == "path": es.append("PATH %d/%d w=%s xy%s" % (e["layer"], e["datatype"], e["width"], e["xy"]))
+            elif k == "text": es.append("TEXT %r %d at %s" % (e["string"].decode("utf8", "replace"), e["layer"], e["xy"]))
+            elif k == "node": es.append("NODE %d" % e["layer"])
+            elif k == "sref": es.append("SREF %s at %s%s" % (e["name"].decode("utf8", "replace"), e["xy"], st(e["strans"])))
+            elif k == "aref": es.append("AREF %s %dx%d xy%s%s" % (e["name"].decode("utf8", "replace"), e["cols"], e["rows"], e["xy"], st(e["strans"])))
+        out.append("%s{%s}" % (s["name"].decode("utf8", "replace"), "; ".join(es)))
+    u = lib["units"][1]
+    return ("units.db=%r " % struct_f(u) if u != G.f2b(1e-9) else "") + " ".join(out)
+def struct_f(bits):
+    import struct as _s
+    return _s.unpack(">d", _s.pack(">Q", bits))[0]
 
 def lib_size(lib):
     return sum(3 + len(e.get("xy", [])) + (4 if e.get("strans") else 0) for s in lib["structs"] for e in s["elems"]) + 5 * len(lib["structs"])
@@ -737,7 +779,7 @@ def run(chk, replay=None):
     # classes: the defect-relevant features of the failing library; a case with one feature is attributed to it
     by_class = {}
     for c, r in viol:
-        f = sorted(features(c["lib"]))
+        f = sorted(features(c["lib"], flags))
         cls = f[0] if len(f) == 1 else ("unclassified" if not f else "+".join(f))
         by_class.setdefault(cls, []).append((c, r))
     chk.cov["violations_by_class"] = {k: len(v) for k, v in sorted(by_class.items())}
@@ -748,14 +790,14 @@ def run(chk, replay=None):
         lst.sort(key=lambda cr: lib_size(cr[0]["lib"]))
         c, r = lst[0]
         chk.violation("from_gds/flatten [%s]: %s gives %s; the property demands %s (%d such cases of %d)" % (
-                          cls, json.dumps(strip(c)["lib"]["structs"])[:700], json.dumps(r[2])[:300],
+                          cls, describe(c["lib"])[:700], json.dumps(r[2])[:300],
                           "an error or exactly the flattened GDSII geometry with no placement dropped", len(lst), len(cases)),
                       {"class": cls, "cases": [strip(c) for c, _ in lst[:12]], "impl": [r[2] for _, r in lst[:12]]}, suffix="-" + cls)
     if unpredicted:
         c, r = min(unpredicted, key=lambda cr: lib_size(cr[0]["lib"]))
         chk.broken.append("correspondence C06: %d violating case(s) on which the model does not predict the implementation, e.g. %s impl=%s" % (
-            len(unpredicted), json.dumps(strip(c)["lib"]["structs"])[:500], json.dumps(r[2])[:300]))
+            len(unpredicted), describe(c["lib"])[:500], json.dumps(r[2])[:300]))
     if mism:
         c, r = min(mism, key=lambda cr: lib_size(cr[0]["lib"]))
         chk.broken.append("correspondence C06: impl differs from model where the property holds or is silent (%d cases), e.g. %s impl=%s" % (
-            len(mism), json.dumps(strip(c)["lib"]["structs"])[:500], json.dumps(r[2])[:300]))
+            len(mism), describe(c["lib"])[:500], json.dumps(r[2])[:300]))
